@@ -115,7 +115,7 @@ def lean_imports(path: Path, seen=None) -> list[Path]:
     return list(seen)
 
 
-def build_all(prop: str) -> dict:
+def build_all(prop: str, tier: str = "quick") -> dict:
     """translate + build driver + build Props.<prop> + axiom audit.
 
     Returns dict(driver_ok, proof_ok, log, theorems, discharged, bad_axioms, forbidden_hits)."""
@@ -172,6 +172,13 @@ def build_all(prop: str) -> dict:
                     res["discharged"].append(t)
                 else:
                     res["bad"].append((t, sorted(axioms.get(full, {"<not reported>"}))))
+        # thorough tier: independent re-check of the compiled module with leanchecker
+        if built and tier == "thorough":
+            rc, out = _run(["lake", "env", "leanchecker", f"Props.{prop}"], cwd=LEAN, timeout=3600)
+            res["leanchecker"] = dict(exit=rc, tail=out[-300:])
+            if rc != 0:
+                res["log"] += "\nleanchecker failed: " + out[-1500:]
+                built = False
         res["proof_ok"] = bool(
             built and thms and not res["bad"] and not res["forbidden"] and not res.get("translate_error")
         )
@@ -324,6 +331,7 @@ def finish(res: Result, build: dict, rule: str, trusted: list[str], assumptions:
         input_distribution=res.distribution,
         known_findings_reconfirmed=res.known_hits,
         notes=res.notes,
+        leanchecker=build.get("leanchecker", "not run (quick tier)"),
     )
     cov.update(res.extra)
     ev = dict(property_id=prop, tier=res.tier, seed=res.seed, level="proof", coverage=cov,
